@@ -17,14 +17,18 @@ EXTENDS RefTables, Float
 D == Dy(BigOfInt(1), -46)
 One == DyOfInt(1)
 
-\* polynomials at a dyadic point p for a dyadic z^2
-Wilson(n, k, p, z2) ==
-    LET npk == DySub(DyMulInt(p, n), DyOfInt(k))
-    IN DySub(DySq(npk), DyMul(z2, DyMulInt(DyMul(p, DySub(One, p)), n)))
-Wald(n, k, p, z2) ==
-    LET npk == DySub(DyMulInt(p, n), DyOfInt(k))
-    IN DySub(DyMulInt(DySq(npk), n), DyMul(z2, DyMul(DyOfInt(k), DyOfInt(n - k))))
-Poly(method, n, k, p, z2) == IF method = "wald" THEN Wald(n, k, p, z2) ELSE Wilson(n, k, p, z2)
+\* polynomials at a dyadic point p for a dyadic z^2; the counts n, k are dyadic values too (populations
+\* beyond the 32-bit integers of TLC are written a * 2^p)
+WilsonD(n, k, p, z2) ==
+    LET npk == DySub(DyMul(p, n), k)
+    IN DySub(DySq(npk), DyMul(z2, DyMul(DyMul(p, DySub(One, p)), n)))
+WaldD(n, k, p, z2) ==
+    LET npk == DySub(DyMul(p, n), k)
+    IN DySub(DyMul(DySq(npk), n), DyMul(z2, DyMul(k, DySub(n, k))))
+PolyD(method, n, k, p, z2) == IF method = "wald" THEN WaldD(n, k, p, z2) ELSE WilsonD(n, k, p, z2)
+Wilson(n, k, p, z2) == WilsonD(DyOfInt(n), DyOfInt(k), p, z2)
+Wald(n, k, p, z2) == WaldD(DyOfInt(n), DyOfInt(k), p, z2)
+Poly(method, n, k, p, z2) == PolyD(method, DyOfInt(n), DyOfInt(k), p, z2)
 
 \* z^2 enclosure <<lo, hi>> from the |z| enclosure
 Z2Enc(kind, li) == LET m == MagEnc(ZRow(IF kind = "two" THEN "two" ELSE "one", li))
@@ -49,6 +53,21 @@ BoundOK(method, n, k, which, b, kind, li) ==
        ELSE IF (which = "lo") = (sg > 0)
             THEN IsLeftRoot(method, n, k, b, z2e)
             ELSE IsRightRoot(method, n, k, b, z2e)
+
+\* the same judge for dyadic counts
+IsLeftRootD(method, n, k, b, z2e) ==
+    /\ DySign(PolyD(method, n, k, DySub(b, D), z2e[2])) > 0
+    /\ DySign(PolyD(method, n, k, DyAdd(b, D), z2e[1])) < 0
+IsRightRootD(method, n, k, b, z2e) ==
+    /\ DySign(PolyD(method, n, k, DySub(b, D), z2e[1])) < 0
+    /\ DySign(PolyD(method, n, k, DyAdd(b, D), z2e[2])) > 0
+BoundOKD(method, n, k, which, b, kind, li) ==
+    LET sg  == CritSign(IF kind = "two" THEN "two" ELSE "one", li)
+        z2e == Z2Enc(kind, li)
+    IN IF sg = 0 THEN DyLe(DyAbs(DySub(DyMul(b, n), k)), DyMul(D, n))
+       ELSE IF (which = "lo") = (sg > 0)
+            THEN IsLeftRootD(method, n, k, b, z2e)
+            ELSE IsRightRootD(method, n, k, b, z2e)
 
 In01(b) == DySign(b) >= 0 /\ DyLe(b, One)
 \* k/n compared with a dyadic bound:  b <= k/n  <=>  n b <= k
